@@ -11,6 +11,7 @@ import (
 	_ "verif/checks/c10"
 	_ "verif/checks/c12"
 	_ "verif/checks/c13"
+	_ "verif/checks/c15"
 	_ "verif/checks/cachex"
 	_ "verif/checks/c17"
 	_ "verif/checks/c18"
